@@ -102,10 +102,12 @@ package batch
 //@   requires beInv(be)
 //@   ensures be.Variables == old(be.Variables) && be.Values == old(be.Values) && be.env == old(be.env) && be.callback == old(be.callback)
 //@   ensures beInv(be) && !be.compiled
-//@   ensures forall k types.PolicyID :: has(be.policies, k) ==> has(old(be.policies), k)
+//@   ensures residual_ids: forall k types.PolicyID :: has(be.policies, k) == (has(old(be.policies), k) && eval.PartialPolicy#1(old(be.env), old(be.policies)[k]))
+//@   ensures residual_policies: forall k types.PolicyID :: has(be.policies, k) ==> be.policies[k] == eval.PartialPolicy#0(old(be.env), old(be.policies)[k])
 //@   loop 1
 //@     invariant be != nil && *be == entry(*be) && !isnil(np)
-//@     invariant forall k types.PolicyID :: has(np, k) ==> ($done[k] && np[k] != nil)
+//@     invariant forall k types.PolicyID :: has(np, k) == ($done[k] && eval.PartialPolicy#1(be.env, be.policies[k]))
+//@     invariant forall k types.PolicyID :: has(np, k) ==> (np[k] != nil && np[k] == eval.PartialPolicy#0(be.env, be.policies[k]))
 //@ func unknownEntity
 //@   inline
 //@ func fixIgnores
